@@ -77,3 +77,139 @@ Definition run_case (c : Z) (given : list Z) : list Z * bool :=
 Definition check_case (x : (Z * list Z) * (list Z * bool)) : bool :=
   let r := run_case (fst (fst x)) (snd (fst x)) in
   (if list_eq_dec Z.eq_dec (fst r) (fst (snd x)) then true else false) && Bool.eqb (snd r) (snd (snd x)).
+
+(* ======================================================================================
+   MALFORMED weights (the property quantifies over "given, missing or malformed stage weights").
+   What a status-report entry may hold, as the two consumers of the weights see it
+   (FlowIR.inject_default_values at load time, StatusMonitor.__init__ when reporting starts):
+
+     WNum m        a number (float, int, bool): float(x) is the decimal m / (1000c)
+     WMissing      no entry for the stage, or an entry without the key 'stage-weight'
+     WText (Some m) a text that float() parses to the decimal m / (1000c)   ('0.5', ' 0.5 ', '5e-1')
+     WText None    a text that float() refuses with ValueError              ('n/a', '', 'high', '0,5')
+     WNan          float() succeeds with nan or +-inf (the floats nan/inf, the texts 'nan', 'inf', '-Infinity')
+     WBad          an object float() refuses with TypeError (None, a list, a mapping)
+
+   inject_default_values: `try: float(...) except ValueError: 0.0` - a text that does not parse counts
+   as 0.0 AND STAYS in the loaded FlowIR when the weights are accepted; a TypeError escapes (the load
+   raises: no workflow is loaded); nan/inf are never accepted.  Entries are only rewritten (all of
+   them, to the defaults) when the weights are not accepted; a missing entry is filled with 0.0.
+   StatusMonitor.__init__: `try: float(...) except: fallbackWeight * 1000` with fallbackWeight =
+   1.0 / n - whatever cannot be converted (also a missing key, None) counts as 1000/n; the weights are
+   re-judged with the same test and, when refused, EVERY stage gets the monitor's own fallback 1.0/n.
+   The weights the monitor finally uses are in units 1/(1000*c*n) (so that 1/n is the integer 1000c). *)
+Inductive wt : Type :=
+| WNum (m : Z)
+| WMissing
+| WText (v : option Z)
+| WNan
+| WBad.
+
+Definition opt_eqb (a b : option Z) : bool :=
+  match a, b with Some x, Some y => x =? y | None, None => true | _, _ => false end.
+
+Definition wt_eqb (a b : wt) : bool :=
+  match a, b with
+  | WNum x, WNum y => x =? y
+  | WMissing, WMissing => true
+  | WText x, WText y => opt_eqb x y
+  | WNan, WNan => true
+  | WBad, WBad => true
+  | _, _ => false
+  end.
+
+Fixpoint list_eqb {A} (eqb : A -> A -> bool) (l r : list A) : bool :=
+  match l, r with
+  | [], [] => true
+  | x :: l', y :: r' => eqb x y && list_eqb eqb l' r'
+  | _, _ => false
+  end.
+
+Fixpoint all_some (l : list (option Z)) : option (list Z) :=
+  match l with
+  | [] => Some []
+  | None :: _ => None
+  | Some x :: l' => match all_some l' with Some r => Some (x :: r) | None => None end
+  end.
+
+Definition is_bad (w : wt) : bool := match w with WBad => true | _ => false end.
+Definition is_unparsable (w : wt) : bool := match w with WText None => true | _ => false end.
+
+(* float(entry) as inject_default_values sees it (None: nan / inf) *)
+Definition inj_value (w : wt) : option Z :=
+  match w with
+  | WNum m => Some m
+  | WMissing => Some 0
+  | WText (Some m) => Some m
+  | WText None => Some 0
+  | WNan => None
+  | WBad => Some 0            (* not reached: the load has raised *)
+  end.
+
+Definition fill (w : wt) : wt := match w with WMissing => WNum 0 | _ => w end.
+
+Definition defaults (c : Z) (n : nat) : list Z := map (Z.mul c) (fallback n).
+
+(* the verdict of stage_weights_add_to_one on the converted weights *)
+Definition inj_accepts (c : Z) (given : list wt) : bool :=
+  match all_some (map inj_value given) with Some vs => accepted c vs | None => false end.
+
+(* the status-report of the loaded FlowIR; None: the load raised (TypeError) *)
+Definition inject (c : Z) (given : list wt) : option (list wt) :=
+  if existsb is_bad given then None
+  else if inj_accepts c given then Some (map fill given)
+  else Some (map WNum (defaults c (length given))).
+
+(* float(entry) as StatusMonitor.__init__ sees it, in units 1/(1000*c*n): a number m is n*m, what
+   cannot be converted is fallbackWeight * 1000 = 1000/n i.e. 10^6 * c; None: nan / inf *)
+Definition mon_value (c n : Z) (w : wt) : option Z :=
+  match w with
+  | WNum m => Some (n * m)
+  | WText (Some m) => Some (n * m)
+  | WNan => None
+  | WMissing | WText None | WBad => Some (1000000 * c)
+  end.
+
+(* the weights the monitor uses (StatusMonitor.stageWeights), units 1/(1000*c*n) *)
+Definition mon_used (c : Z) (ws : list wt) : list Z :=
+  let n := Z.of_nat (length ws) in
+  match all_some (map (mon_value c n) ws) with
+  | Some vs => if accepted (c * n) vs then vs else repeat (1000 * c) (length ws)
+  | None => repeat (1000 * c) (length ws)
+  end.
+
+(* load, then report: None = the load raised *)
+Definition used (c : Z) (given : list wt) : option (list Z) :=
+  match inject c given with Some loaded => Some (mon_used c loaded) | None => None end.
+
+(* correspondence, malformed family: ((c, given), (loaded status-report or raised, weights in use)) *)
+Definition olist_eqb {A} (eqb : A -> A -> bool) (a b : option (list A)) : bool :=
+  match a, b with Some x, Some y => list_eqb eqb x y | None, None => true | _, _ => false end.
+
+Definition check_wcase (x : (Z * list wt) * (option (list wt) * option (list Z))) : bool :=
+  let c := fst (fst x) in let given := snd (fst x) in
+  olist_eqb wt_eqb (inject c given) (fst (snd x)) && olist_eqb Z.eqb (used c given) (snd (snd x)).
+
+(* correspondence, the monitor alone on a status-report set after loading: ((c, entries), weights in use) *)
+Definition check_mcase (x : (Z * list wt) * list Z) : bool :=
+  list_eqb Z.eqb (mon_used (fst (fst x)) (snd (fst x))) (snd x).
+
+(* ======================================================================================
+   Which stages CheckStatus counts (Controller.get_stages_finished / get_stages_in_transit, control.py).
+   A node of the workflow graph is (stage index, active?) - active until the controller has observed its
+   termination; nodes may be ADDED to existing stages while the workflow runs (iterations of a DoWhile).
+   in transit: the stages of the active nodes; finished: the known stages without an active node -
+   both computed from the nodes as they are NOW. *)
+Definition stage_active (nodes : list (Z * bool)) (s : Z) : bool :=
+  existsb (fun nb => (fst nb =? s) && snd nb) nodes.
+Definition stages_in_transit (nodes : list (Z * bool)) : list Z := map fst (filter snd nodes).
+Definition stages_finished (stages : list Z) (nodes : list (Z * bool)) : list Z :=
+  filter (fun s => negb (stage_active nodes s)) stages.
+
+Definition subset_b (l r : list Z) : bool := forallb (fun x => existsb (Z.eqb x) r) l.
+
+(* correspondence: ((known stages, nodes), (finished, in transit) reported by the real Controller) *)
+Definition check_scase (x : (list Z * list (Z * bool)) * (list Z * list Z)) : bool :=
+  let st := fst (fst x) in let nodes := snd (fst x) in
+  list_eqb Z.eqb (stages_finished st nodes) (fst (snd x)) &&
+  subset_b (stages_in_transit nodes) (snd (snd x)) && subset_b (snd (snd x)) (stages_in_transit nodes).
